@@ -67,6 +67,7 @@ type Context struct {
 	chunkExpectedByteCount uint64
 	chunkActualByteCount   uint64
 	utf8RemainderBacking   [4]byte
+	utf8FirstRuneBacking   [4]byte
 	utf8RemainderBuffer    []byte
 	ValidateArrayDataFunc  func(data []byte)
 
